@@ -194,18 +194,45 @@ def run(ctx: Ctx) -> None:
     ctx.require(wrapper is not None, "_execute_connection_coro missing")
     gw = cfg_of(ctx, wrapper)
 
+    # the phase's own connection: a local snapshot of self._connection taken before the phase is awaited
+    snaps = set()
+    for n in own_nodes(wrapper.node):
+        if isinstance(n, ast.Assign) and norm(n.value) == "self._connection":
+            snaps |= {t.id for t in n.targets if isinstance(t, ast.Name)}
+        if isinstance(n, ast.NamedExpr) and norm(n.value) == "self._connection":
+            snaps.add(n.target.id)
+
+    def same_test(n: Node) -> "bool | None":
+        """cond node comparing the installed connection with the snapshot: True if `is`, False if `is not`."""
+        t = n.ast
+        if n.kind == "cond" and isinstance(t, ast.Compare) and len(t.ops) == 1 and isinstance(t.ops[0], (ast.Is, ast.IsNot, ast.Eq, ast.NotEq)):
+            l, r = norm(t.left), norm(t.comparators[0])
+            if {l, r} == {"self._connection", next(iter(snaps & {l, r}), "<none>")}:
+                return isinstance(t.ops[0], (ast.Is, ast.Eq))
+        return None
+
     def stepw(n: Node, s: frozenset, label: str):
         if label == "exc" and not eff.node_raises(wrapper, n):
             return None
         if label == "exc" and eff.node_suspends(wrapper, n):
-            return s | {"phase-failed"}
+            return (s - {"known-same"}) | {"phase-failed"}
+        st_ = same_test(n)
+        if st_ is not None and label in ("true", "false"):
+            if (label == "true") == st_:
+                return s | {"known-same"}
+            return s | {"replaced"}  # somebody else already installed / cleared another connection
         if label != "exc" and n.kind == "stmt" and isinstance(n.ast, ast.Assign) and any(norm(t) == "self._connection" for t in n.ast.targets) and is_none(n.ast.value):
+            if "phase-failed" in s and "known-same" not in s:
+                return s | {"cleared", "blind-clear"}
             return s | {"cleared"}
         return s
 
     fw = disjunctive(gw, frozenset(), stepw)
-    bad = [s for s in fw.get(gw.raise_exit, frozenset()) if "phase-failed" in s and "cleared" not in s]
-    ctx.ob("C19.R3", wrapper, "every exceptional exit of a connect phase clears the connection", not bad and bool(fw.get(gw.raise_exit)), "after a failed (or cancelled) attempt the client would refuse every new attempt")
+    ex_states = fw.get(gw.raise_exit, frozenset())
+    bad = [s for s in ex_states if "phase-failed" in s and "cleared" not in s and "replaced" not in s]
+    ctx.ob("C19.R3", wrapper, "every exceptional exit of a connect phase clears the connection (unless it was already replaced)", not bad and bool(ex_states), "after a failed (or cancelled) attempt the client would refuse every new attempt")
+    blind = [s for s in ex_states if "blind-clear" in s]
+    ctx.ob("C19.R3", wrapper, "a failed phase forgets only its own connection", not blind and bool(snaps), "the failing phase clears whatever is installed - a newer connection installed after disconnect() is wiped while its attempt is in flight (the attempt then ends in AttributeError and a third attempt is accepted concurrently)")
     # disconnect()
     disc = client.methods["disconnect"]
     gd = cfg_of(ctx, disc)
